@@ -261,6 +261,38 @@ def kinds_rule(repo: Repo, prop: str, rule_id: str, module_prefixes: Tuple[str, 
                 )
             else:
                 undetermined += 1
+        # cross / dot products and component sums: operands must be vectors; a position as operand makes the result depend on
+        # where the geometry sits, a plain sum of a vector's components (not of squares / absolute values) on how it is turned
+        kinds_ = Kinds(repo, fn)
+        k2: Dict[str, int] = {}
+
+        def scan2(node, kk):
+            for n in walk_shallow(node):
+                if isinstance(n, ast.FunctionDef) and n is not node:
+                    inner = Kinds(repo, fn, outer=kk.env, node=n)
+                    inner.attr_env = kk.attr_env
+                    scan2(n, inner)
+                    continue
+                if isinstance(n, ast.Lambda):
+                    inner = kk
+                    scan2(n.body if isinstance(n.body, ast.AST) else n, inner)
+                if not isinstance(n, ast.Call):
+                    continue
+                nm = (attr_chain(n.func) or "").split(".")[-1]
+                if nm in ("cross", "dot") and len(n.args) >= 2:
+                    ks = [kk.kind(a) for a in n.args[:2]]
+                    base = f"{nm}()"
+                    k2[base] = k2.get(base, 0) + 1
+                    if P in ks:
+                        which = n.args[ks.index(P)]
+                        r.bad(fn, f"{fn.qualname}: '{ast.unparse(n)[:80]}' uses the POSITION '{ast.unparse(which)[:40]}' as a vector: the result is right only for geometry whose reference point is the global origin", n, key=f"{base}#{k2[base]}")
+                    elif ks[0] == V and ks[1] == V:
+                        r.ok(fn, f"{nm}() of two vectors", key=f"{base}#{k2[base]}")
+                elif nm == "sum" and n.args and kk.kind(n.args[0]) in (V, P):
+                    k2["sum()"] = k2.get("sum()", 0) + 1
+                    r.bad(fn, f"{fn.qualname}: '{ast.unparse(n)[:80]}' adds up the components of a single vector: that number changes when the geometry is turned (a distance is the sum of SQUARED components)", n, key=f"sum()#{k2['sum()']}")
+
+        scan2(fn.node, kinds_)
     r.note(f"{undetermined} argument(s) whose kind could not be determined from annotations are not judged")
     return r
 
